@@ -7,6 +7,24 @@ COMMON_NOTE = ("Trusted: Coq 8.16.1 kernel (vm_compute, no native_compute); no a
                "extraction via ExtrOcamlBasic only + coq/Extract/driver.ml, cross-checked by vm_compute on a sample every run; "
                "harness/translate.py (T1) and the per-property runner harness/cNN.py (T2 canonicalisation). ")
 CLAIMED = {
+ "C07": dict(
+   text="PARTIAL. Coq theorems over ALL entry lists (any sequence of two-digit levels, no well-nesting assumed): the forest built by structure() has preorder = the kept entries (66/77/88 skipped), each exactly once in source order, every entry's parent is the nearest preceding kept entry with a strictly smaller level, roots are the entries without one (every 01); generated FILLER names are pairwise distinct. "
+        "The clause regular expression, sentence splitter and schema emission are not proved: the emitted schema shape is an executable model compared with the real code on generated copybooks, and what the text layer returned is observed in every case.",
+   note="Proved: structure(), DDE naming. Modelled and checked by correspondence only: build_json_schema shape. Not modelled: reference_format/dde_sentences (C12's model) and the clause regexp. The full REDEFINES-error statement is kept as a Definition with two proved partial theorems. Known findings: last entry lost without trailing white space / >=72-column line (pinned by test_20), REDEFINES in an OCCURS group (KeyError), keyword-prefixed names, INDEXED BY naming (pinned by test_7).",
+   technique="Coq proof by induction over the entry list (stack-of-open-frames invariant) + sampled differential correspondence on generated copybooks",
+   design="5/C07"),
+ "C15": dict(
+   text="Coq theorems over ALL schema documents (mutual induction, no depth/width bound): a loaded schema mirrors the document (same nesting, property order, node kind by keyword dispatch order), json() gives the document back; with unique anchors and no title shadowing every $ref, backward or forward, resolves to the node bearing the anchor and a dangling one is a ValueError; DNav navigation equals plain indexing for every instance and path, name on non-object / index on non-array is TypeError. "
+        "The ATOMIC set is regenerated from the source; correspondence on grammar-generated documents incl. overlapping keywords, dangling and forward references.",
+   note="Modelled by hand: SchemaMaker.walk_schema/resolve/from_json, Schema wrappers' dereferencing, DNav. Object identity of ref_to is modelled as the path of the target node. Known finding K-title-shadows-anchor (name_cache keyed by title when no $anchor), with refutation theorems.",
+   technique="Coq proof by mutual induction over schema documents + regenerated parameters + sampled differential correspondence",
+   design="5/C15"),
+ "C16": dict(
+   text="Coq theorems over ALL n>=1 (up to CPython's 4300-digit int-to-str limit) and ALL 0<=v<10^n in the three representations: digit_string gives exactly n digits of value v; over ALL d and ALL exact decimals within the 28-digit precision: decimal_places has exponent -d, is within half a unit in the last place, is idempotent, and outside the precision bound raises InvalidOperation; the CONVERSION table (regenerated from the source) yields the named types. "
+        "Correspondence exhaustive for n<=3/4 in 3 representations, boundary and random to n=20, d in 0..12 with float/str/int/Decimal arguments incl. ties.",
+   note="Modelled by hand: int(), str(int), negative slicing, Decimal.quantize under ROUND_HALF_EVEN with the default context. Decimal(x) and as_tuple() are trusted stdlib conversions used to serialise arguments.",
+   technique="Coq proof by induction on the digit expansion / Euclidean division lemmas (lia, nia) + regenerated table + exhaustive-small and sampled differential correspondence",
+   design="5/C16"),
  "C02": dict(
    text="Coq theorems over ALL digit strings (<=28 digits), ALL valid sign nibbles, ALL pictures and ALL values of the width: packed, zoned and big-endian binary encodings decode to exactly the stored value with the picture's scale; every byte string decodes to its CP037 text, injectively (256-entry table regenerated from the codec). "
         "The model's constants (usage tuples, sign nibbles, thresholds, digit validation, DOTALL) are regenerated from estruct.py each run; correspondence is exhaustive for 1-2 byte packed/zoned buffers, all halfwords, all text bytes, sampled beyond, also through the schema/nav path.",
